@@ -99,3 +99,22 @@ Example ex_streams_str : fst (lex_all (attempt_ref ex_g) ex_act (fb_str [97;195;
                      = [RItem (Item false None 0 1); RItem (Item false None 1 3); RItem (Item true (Some 1) 3 4)].
 Proof. vm_compute. reflexivity. Qed.
 Definition ex_C12_streams := C12_streams_agree ex_d ex_g ex_V ex_R ex_D ex_PU ex_dfa_ok ex_sim_ok ex_exact_ok ex_utf8_ok ex_utf8_strict_ok.
+
+Definition ex_C07_emitted_chunked := fun U => C07_emitted_chunked_is_oneshot U ex_g ex_p ex_prog_ok ex_wf_graph ex_d ex_V ex_R ex_D ex_dfa_ok ex_sim_ok ex_exact_ok.
+
+(* ---------- a look-around-free definition (corpus/front/conflicts.rs LowerTieBelowTopSplit: [ab] | b (priority 9) | [bc]) ----------
+   the strict promptness certificate holds, the root waits in partial mode, and C07_waits_only_if_open says why:
+   a match is still reachable from a successor of its DFA state *)
+Definition ex2_d := mk_dfa [(16, [], 0, [2]); (24, [], 0, [0; 1; 2]); (32, [], 0, [0]); (40, [(97,97,56); (98,98,64); (99,99,48)], 0, []); (48, [(0,255,16)], 16, []); (56, [(0,255,32)], 32, []); (64, [(0,255,24)], 24, [])] 40 [2; 9; 2].
+Definition ex2_g := mk_graph [(0, None, None, [([(99,99)], 1); ([(97,97)], 2); ([(98,98)], 3)], None); (1, (Some 2), None, [], None); (2, (Some 0), None, [], None); (3, (Some 1), None, [], None)] 0.
+Definition ex2_V := mk_pairing [(0, [40]); (1, [48]); (2, [56]); (3, [64])].
+Definition ex2_D := mk_pset [0; 16; 24; 32].
+Definition ex2_R := mk_rank [(40,1); (48,0); (56,0); (64,0)].
+Example ex2_dfa_ok : dfa_ok ex2_d = true. Proof. vm_compute. reflexivity. Qed.
+Example ex2_sim_ok : sim_ok ex2_d ex2_g ex2_V ex2_D = true. Proof. vm_compute. reflexivity. Qed.
+Example ex2_exact_ok : exact_ok ex2_d ex2_g ex2_V ex2_R ex2_D = true. Proof. vm_compute. reflexivity. Qed.
+Example ex2_prompt_strict_ok : prompt_strict_ok ex2_d ex2_g ex2_V ex2_R = true. Proof. vm_compute. reflexivity. Qed.
+Example ex2_root_paired : inV ex2_V 1%positive 41%positive = true. Proof. vm_compute. reflexivity. Qed.
+Example ex2_root_waits : option_map partial_mode_test (gfind ex2_g 1%positive) = Some true. Proof. vm_compute. reflexivity. Qed.
+Definition ex2_C07_strict := C07_prompt_strict ex2_d ex2_g ex2_V ex2_R 1%positive 41%positive.
+Definition ex2_C07_open := C07_waits_only_if_open ex2_d ex2_g ex2_V ex2_R ex2_D ex2_dfa_ok ex2_sim_ok ex2_exact_ok 1%positive 41%positive.
